@@ -30,6 +30,8 @@ BIN = os.environ.get("VERIF_SELFTEST_BIN") or os.path.join(VERIF, "target", "rel
 BIN2 = BIN.replace("/release/", "/relnd/")
 # third configuration: like relnd, with cactusref's default feature `std` off
 BIN3 = BIN.replace("/release/cactus-sim", "/nostd/relnd/cactus-sim")
+# unoptimised build (opt-level 0): used by the scaling scenarios only
+BIN0 = BIN.replace("/release/", "/debug/")
 _OUT = os.environ.get("VERIF_SELFTEST_OUT")
 EVID = os.path.join(_OUT, "evidence") if _OUT else os.path.join(VERIF, "evidence")
 REPLAYS = os.path.join(_OUT, "replays") if _OUT else os.path.join(VERIF, "replays")
@@ -84,7 +86,7 @@ def build():
     if os.environ.get("VERIF_SELFTEST_BIN"):
         return
     env = dict(os.environ, CARGO_NET_OFFLINE="true")
-    for args in (["--release"], ["--profile", "relnd"], ["--profile", "relnd", "--no-default-features", "--target-dir", os.path.join(os.path.dirname(os.path.dirname(BIN)), "nostd")]):
+    for args in (["--release"], ["--profile", "relnd"], ["--profile", "relnd", "--no-default-features", "--target-dir", os.path.join(os.path.dirname(os.path.dirname(BIN)), "nostd")], []):
         r = subprocess.run(["cargo", "build"] + args + ["--offline"], cwd=SIM, env=env, stdout=subprocess.PIPE, stderr=subprocess.STDOUT, text=True)
         if r.returncode != 0:
             eprint(r.stdout[-6000:])
